@@ -132,6 +132,86 @@ theorem C03_chain_agg_state_given (stages : List (AStage K V X R)) (hnd : ∀ st
     exact chainFinal_lookup _ _ stages feeds i st k hi ((hmem st hst k).mpr hk)
       (fun j st' hij hj hk' => hlater j st' hij hj ((hmem st' (List.mem_of_getElem? hj) k).mp hk'))
 
+/-- **Whichever object the aggregate is taken from, it is the same aggregate.**  For the run of
+`C03_chain_agg_state_own_keys`: under every key `k` of stage `i` (not re-used by a later stage) the iterator's
+`agg_result` — also what `AggregateResult.agg_result` carries — and `get_result` of the chained `agg_state` — the
+returned `AggregateResult.agg_state` or `iterator.agg_state`, read by `ChainedRunner.get_result` — both report
+`get_result` of the owning aggregate's state after stage `i`'s feed. -/
+theorem C03_chain_observables_agree (stages : List (AStage K V X R)) (hnd : ∀ st ∈ stages, st.keys.Nodup)
+    (feeds : List (List X)) :
+    ∃ sts, chainStates stages none feeds = .ok sts ∧
+      ∀ (i : Nat) (st : AStage K V X R) (k : K), stages[i]? = some st → k ∈ st.keys →
+        (∀ j st', i < j → stages[j]? = some st' → k ∉ st'.keys) →
+        lookupLast k (chainAggResult stages sts)
+          = some (st.result k (((feeds[i]?).getD []).foldl (st.upd k) (st.create k))) ∧
+        lookupLast k (chainGetResult stages sts.flatten)
+          = some (st.result k (((feeds[i]?).getD []).foldl (st.upd k) (st.create k))) := by
+  have hspec := chainStates_spec (none : Option (KV K V)) (fun st => st.keys) (fun st => st.create) stages feeds
+    (fun st hst feed => run_none st (hnd st hst) feed)
+  refine ⟨chainFinal (fun st => st.keys) (fun st => st.create) stages feeds, hspec, ?_⟩
+  intro i st k hi hk hlater
+  have hlook := chainFinal_lookup (fun st : AStage K V X R => st.keys) (fun st => st.create) stages feeds i st k hi hk hlater
+  constructor
+  · -- per-stage `get_result` of the stage's own state, chained
+    unfold chainAggResult
+    rw [List.flatMap_def]
+    refine lookupLast_flatten_at k _ _ i (st.getResult (stageFinal st st.keys st.create ((feeds[i]?).getD []))) ?_ ?_ ?_
+    · have hz : (stages.zip (chainFinal (fun st => st.keys) (fun st => st.create) stages feeds))[i]?
+          = some (st, stageFinal st st.keys st.create ((feeds[i]?).getD [])) :=
+        List.getElem?_zip_eq_some.mpr ⟨hi, by rw [chainFinal_getElem?, hi]; rfl⟩
+      rw [List.getElem?_map, hz]
+      rfl
+    · rw [lookupLast_getResult, if_pos hk, stageFinal_lookup _ _ _ _ _ hk]; rfl
+    · intro j l' hij hj
+      rw [List.getElem?_map] at hj
+      cases hz : (stages.zip (chainFinal (fun st => st.keys) (fun st => st.create) stages feeds))[j]? with
+      | none => rw [hz] at hj; simp at hj
+      | some p =>
+        rw [hz] at hj
+        simp only [Option.map_some, Option.some.injEq] at hj
+        subst hj
+        obtain ⟨h1, _⟩ := List.getElem?_zip_eq_some.mp hz
+        rw [lookupLast_getResult, if_neg (hlater j p.1 hij h1)]
+  · -- every runner's `get_result` of the ONE chained state
+    unfold chainGetResult
+    rw [List.flatMap_def]
+    refine lookupLast_flatten_at k _ _ i (st.getResult (chainFinal (fun st => st.keys) (fun st => st.create) stages feeds).flatten) ?_ ?_ ?_
+    · rw [List.getElem?_map, hi]; rfl
+    · rw [lookupLast_getResult, if_pos hk, hlook]; rfl
+    · intro j l' hij hj
+      rw [List.getElem?_map] at hj
+      cases hs : stages[j]? with
+      | none => rw [hs] at hj; simp at hj
+      | some st' =>
+        rw [hs] at hj
+        simp only [Option.map_some, Option.some.injEq] at hj
+        subst hj
+        rw [lookupLast_getResult, if_neg (hlater j st' hij hs)]
+
+/-- **`ChainedRunner.merge_states` keeps every stage's entries apart.**  For ANY list of states (the returned
+`agg_state`s of any number of shard runs, in any form): under a key `k` of stage `i` that no later stage has, the
+merged state holds the left fold of stage `i`'s `merge_states([acc, s])` over ALL the values the states carry under
+`k`, in order — one entry per key, no other stage's values mixed in, none dropped. -/
+theorem C03_chain_merge_states_own_keys (stages : List (AStage K V X R)) (states : List (KV K V))
+    (i : Nat) (st : AStage K V X R) (k : K) (hi : stages[i]? = some st) (hk : k ∈ st.keys)
+    (hlater : ∀ j st', i < j → stages[j]? = some st' → k ∉ st'.keys) (v : V)
+    (hv : mergeVals (st.merge k) ((states.flatten.filter fun kv => decide (kv.1 = k)).map (·.2)) = some v) :
+    lookupLast k (chainMergeStates stages states) = some v := by
+  unfold chainMergeStates
+  rw [List.flatMap_def]
+  refine lookupLast_flatten_at k v _ i (st.mergeStates states) ?_ ?_ ?_
+  · rw [List.getElem?_map, hi]; rfl
+  · rw [mergeStates_lookup_own st k hk, hv]
+  · intro j l' hij hj
+    rw [List.getElem?_map] at hj
+    cases hs : stages[j]? with
+    | none => rw [hs] at hj; simp at hj
+    | some st' =>
+      rw [hs] at hj
+      simp only [Option.map_some, Option.some.injEq] at hj
+      subst hj
+      exact mergeStates_lookup_foreign st' k (hlater j st' hij hs) states
+
 end Chain
 
 /-! ## Non-vacuity (tests of the definitions, `decide`d) -/
